@@ -166,7 +166,7 @@ def run_vacuity(root, scratch, idx, unit):
                                             module_ext=u.get("module_ext", True), vacuity=True)
     except gen.GenError as e:
         return dict(unit=unit, checked=[], vacuous=[], note="generator: %s" % e)
-    fns = list(gen.VACUITY["fns"])
+    fns = list(info.get("vacuity_fns", []))
     if not fns:
         return dict(unit=unit, checked=[], vacuous=[])
     path = os.path.join(scratch.dir, "vac_%s.rs" % unit)
@@ -182,9 +182,13 @@ def run_vacuity(root, scratch, idx, unit):
             d = json.loads(ln)
         except Exception:
             continue
+        if d.get("level") != "error":
+            continue
         for sp in d.get("spans", []):
+            if os.path.basename(sp.get("file_name", "")) != os.path.basename(path):
+                continue
             o = origin.get(sp["line_start"])
-            if o and o.endswith("#vacuity-twin"):
+            if o and o.endswith(":vacuity-twin"):
                 failed.add(o.rsplit(":", 1)[0])
     return dict(unit=unit, checked=fns, vacuous=[f for f in fns if f not in failed], wall_s=round(dt, 1))
 
